@@ -74,3 +74,40 @@ Print Assumptions c06_failed_call_unchanged.
 Theorem c06_inv_check_sound : forall s, inv_check s = true -> inv s.
 Proof. exact inv_check_sound. Qed.
 Print Assumptions c06_inv_check_sound.
+
+(** Non-vacuity.  A concrete invariant-satisfying state and history (holder deadline at offset
+    100, 5 units of ONG per ONT and second): an ONT transfer before the deadline makes ONG
+    claimable (allowance of the ONT contract to the holder), a transferFrom after the deadline
+    spends an ONT allowance and pays both ends their ONG out of the ONT contract's balance, and a
+    two-movement transfer whose second movement is not witnessed fails after the first movement
+    was written to the scratch cache - the committed state stays as it was. *)
+Definition ex_unbind (b s e : Z) : Z := 5 * b * (e - s).
+Definition ex_s0 : state :=
+  mkState [(33%N, 1000000000000); (34%N, 2500000000)]
+          [(tk_ont_addr, 100000000000000000000); (33%N, 7)]
+          [((33%N, 34%N), 30000000000)] [] [(33%N, 10)].
+Definition ex_ctx (signers : list addr) (t : Z) : callctx :=
+  mkCtx signers None (tk_genesis_ts + t) false true false.
+Definition ex_k1 := mkCall ONT (ex_ctx [33%N] 50) (Transfer false [TS 33%N 34%N 10]).
+Definition ex_k2 := mkCall ONT (ex_ctx [34%N] 150) (TransferFrom true 34%N 33%N 34%N 1500000000).
+Definition ex_k3 := mkCall ONT (ex_ctx [33%N] 160) (Transfer false [TS 33%N 34%N 5; TS 34%N 33%N 1]).
+
+Example c06_nonvacuous :
+  let s1 := run ex_unbind 100 ex_s0 [ex_k1] in
+  let s2 := run ex_unbind 100 ex_s0 [ex_k1; ex_k2] in
+  inv ex_s0
+  /\ balf s1 ONT 33%N < balf ex_s0 ONT 33%N                         (* debit, witnessed by 33 *)
+  /\ allowf ex_s0 ONG tk_ont_addr 33%N < allowf s1 ONG tk_ont_addr 33%N  (* ONG made claimable *)
+  /\ balf s2 ONT 33%N < balf s1 ONT 33%N                            (* debit by spender 34 ... *)
+  /\ allowf s1 ONT 33%N 34%N - allowf s2 ONT 33%N 34%N = balf s1 ONT 33%N - balf s2 ONT 33%N
+  /\ balf s2 ONG tk_ont_addr < balf s1 ONG tk_ont_addr              (* pool pays ... *)
+  /\ balf s1 ONG 33%N < balf s2 ONG 33%N                            (* ... the holder *)
+  /\ sumb s2 ONT = sumb ex_s0 ONT /\ sumb s2 ONG = sumb ex_s0 ONG
+  /\ (exists dirty, exec ex_unbind 100 ex_k3 s2 = (dirty, Err EAuth) /\ dirty <> s2
+                    /\ step ex_unbind 100 s2 ex_k3 = (s2, Err EAuth)).
+Proof.
+  cbv zeta. split; [apply c06_inv_check_sound; vm_compute; reflexivity|].
+  repeat (split; [vm_compute; reflexivity|]).
+  eexists. split; [vm_compute; reflexivity|]. split; [|vm_compute; reflexivity].
+  intros H. apply (f_equal (fun s => balf s ONT 33%N)) in H. vm_compute in H. discriminate.
+Qed.
